@@ -23,6 +23,8 @@ type c4Gen struct {
 	Mode  string   `json:"mode"`
 	Alias bool     `json:"alias,omitempty"`
 	Parts []string `json:"parts"` // docecho | valuemap | refs | counter | valuecompete
+	// Behave: "" (renders its parts) | ignore (ErrIgnore for every type, nothing rendered) | quiet (nothing rendered)
+	Behave string `json:"behave,omitempty"`
 }
 
 type c4Case struct {
@@ -41,6 +43,8 @@ type c4Case struct {
 	// entrypoint but imported by the first package of the main module: which packages count as local must not depend on the
 	// order of the entrypoints
 	Sib bool `json:"sib,omitempty"`
+	// Force: All runs also set Force
+	Force bool `json:"force,omitempty"`
 }
 
 const c4SibPath = "example.org/sib"
@@ -68,6 +72,12 @@ func genC04(t *rapid.T) c4Case {
 		if len(g.Parts) == 0 {
 			g.Parts = []string{"docecho"}
 		}
+		switch rapid.IntRange(0, 6).Draw(t, "behave") {
+		case 0:
+			g.Behave = "ignore"
+		case 1:
+			g.Behave = "quiet"
+		}
 		c.Gens = append(c.Gens, g)
 	}
 	switch rapid.IntRange(0, 5).Draw(t, "real") {
@@ -88,6 +98,7 @@ func genC04(t *rapid.T) c4Case {
 		c.Entries = append(c.Entries, perm[i].Dir)
 	}
 	c.All = rapid.Bool().Draw(t, "all")
+	c.Force = c.All && rapid.IntRange(0, 2).Draw(t, "force") == 0
 	if rapid.IntRange(0, 3).Draw(t, "sib") == 0 {
 		c.Sib = true
 		at := rapid.IntRange(0, len(c.Entries)).Draw(t, "sibat")
@@ -105,6 +116,15 @@ func genC04(t *rapid.T) c4Case {
 	}
 	c.Children = rapid.IntRange(0, 1).Draw(t, "children")
 	c.Base = rapid.SampledFrom([]string{"zz_generated", "zz_generated", "api_generated", "a", "generated", "doc_generated"}).Draw(t, "base")
+	// left-overs of earlier runs (kept by a generator that signals ErrIgnore, removed otherwise - whatever the order of the generators)
+	for pi := range c.Mod.Pkgs {
+		for _, g := range c.Gens {
+			if rapid.IntRange(0, 3).Draw(t, "stale") == 0 {
+				c.Mod.Pkgs[pi].Other = append(c.Mod.Pkgs[pi].Other, modspec.File{Name: c.Base + "." + g.Name + ".go",
+					Data: fmt.Sprintf("package %s\n\nvar _stale_%s_%d = 0\n", c.Mod.Pkgs[pi].Name, g.Name, pi)})
+			}
+		}
+	}
 	return c
 }
 
@@ -132,6 +152,14 @@ func (g c4Gen) script() *script.Script {
 	s.Default = script.Action{Render: pieces}
 	if g.Alias {
 		s.OnAlias = &script.Action{Render: []script.Piece{{Kind: "block", Text: "\nvar _$G_$T_alias = $N\n"}}}
+	}
+	switch g.Behave {
+	case "ignore":
+		s.Default = script.Action{Err: "ignore"}
+		s.OnAlias = nil
+	case "quiet":
+		s.Default = script.Action{}
+		s.OnAlias = nil
 	}
 	return s
 }
@@ -246,7 +274,7 @@ func oracleC04(c c4Case) error {
 				entries = append(entries, entry(c.Entries[i]))
 			}
 		}
-		return script.RunSpec{Dir: dir, Entrypoints: entries, All: c.All, Globals: c.Globals, Base: c.base(), Scripts: scripts, Real: c.Real}
+		return script.RunSpec{Dir: dir, Entrypoints: entries, All: c.All, Force: c.Force, Globals: c.Globals, Base: c.base(), Scripts: scripts, Real: c.Real}
 	}
 	check := func(label string, res script.RunResult) error {
 		if res.LoadErr != "" {
@@ -299,6 +327,24 @@ func oracleC04(c c4Case) error {
 		}
 		if err := compare(fmt.Sprintf("run with entrypoints permuted %v (#%d)", perm, pi), script.Run(spec(perm))); err != nil {
 			return err
+		}
+	}
+	// the generator SET is fixed, the order in which the generators are handed to Execute is not part of it
+	if len(scripts) >= 2 {
+		if err := initial.Restore(snapRoot); err != nil {
+			panic("harness: restore: " + err.Error())
+		}
+		rs := spec(nil)
+		rs.Scripts = nil
+		for i := len(scripts) - 1; i >= 0; i-- {
+			rs.Scripts = append(rs.Scripts, scripts[i])
+		}
+		res := script.Run(rs)
+		if err := check("run with the generators listed in reverse order", res); err != nil {
+			return err
+		}
+		if d := diffViews(refView, generatedView(mustSnapshot(snapRoot), c.base())); d != "" {
+			return fmt.Errorf("run with the generators listed in reverse order gives different output: %s", d)
 		}
 	}
 	children := c.Children
@@ -382,6 +428,9 @@ func c4Features(c c4Case) []string {
 	}
 	if c.Sib {
 		fs["second-module-with-non-entrypoint-dependency"] = true
+	}
+	if c.Force {
+		fs["force"] = true
 	}
 	if c.Children > 0 {
 		fs["fresh-process"] = true
